@@ -1150,7 +1150,7 @@ func beRun(t stats.TB, bc beCase) {
 			c.dropPeer()
 		}
 		if bc.KeepDL {
-			c.setOpt(c.sub, mangos.OptionSendDeadline, 50*time.Millisecond)
+			c.setOpt(c.sub, mangos.OptionSendDeadline, 5*time.Second) // far beyond "at once": waiting for it would show
 		} else if !pat.posOnly {
 			c.setOpt(c.sub, mangos.OptionSendDeadline, time.Duration(0))
 		}
